@@ -19,7 +19,7 @@ var e1Owners = map[string][]string{
 	"C01": {"delivery", "flush", "completeness", "fault-send-ok"},
 	"C02": {"crosstalk", "foreign-error", "isolation", "handler-twice", "probe", "client-stuck", "server-dropped", "next-rpc-stuck"},
 	"C04": {"cancel-hang", "cancel-error", "cancel-later-op", "cancel-peer", "probe", "close-hang"},
-	"C05": {"fault-hang", "fault-closed", "fault-delivery", "panic", "fault-newstream", "fault-send-ok"},
+	"C05": {"fault-hang", "fault-closed", "fault-delivery", "panic", "fault-newstream", "fault-send-ok", "close-count"},
 	"C06": {"probe", "next-rpc-stuck"},
 	"C07": {"wire", "concurrent-io", "wire-trailing"},
 	"C10": {"handler-error", "spurious-error", "probe", "client-stuck"},
@@ -470,6 +470,7 @@ func (x *e1) checkHangs(phase string) {
 	if len(calls) == 0 {
 		return
 	}
+	x.checkArrivedNotReceived(calls)
 	byRPC := map[int][]blockedCall{}
 	for _, c := range calls {
 		byRPC[apiRPC(c.API)] = append(byRPC[apiRPC(c.API)], c)
@@ -717,7 +718,7 @@ func (x *e1) checkEnd(connAlive bool, faultFree bool) {
 			} else if !r.C.ClosedByMe || r.C.CloseStep > r.HRetStep {
 				got = r.C.FirstErr
 			}
-			wantText := buildErr(spec.HErr).Error()
+			wantText := wantErrText(spec.HErr)
 			if got != nil && !(r.C.ClosedByMe && got.Error() != wantText) {
 				if got.Error() != wantText || errCode(got) != spec.HErr.Code {
 					// a client that closed or half-broke the stream itself may see its own error
@@ -731,10 +732,13 @@ func (x *e1) checkEnd(connAlive bool, faultFree bool) {
 		}
 		// C10: a handler error is actually sent (never swallowed or replaced by a
 		// plain end-of-stream) when the stream was still open at that time
-		if spec.HRet == RetErr && !spec.Unknown && r.HReturned && !r.Cancelled && faultFree && x.pooled == nil &&
+		// (a handler that half-closed itself before failing: once the client has
+		// half-closed too the rpc is over, and whether the error can still be sent
+		// is a race)
+		if spec.HRet == RetErr && !spec.Unknown && r.HReturned && !r.Cancelled && faultFree && x.pooled == nil && !handlerHalfCloses(spec) &&
 			!(r.C.ClosedByMe && r.C.CloseStep <= r.HRetStep) && (!x.serveDone || x.serveStep > r.HRetStep) &&
 			!(spec.Shape == ShUnary && r.InvokeDone && r.ClientDoneStep <= r.HRetStep) {
-			want := buildErr(spec.HErr).Error()
+			want := wantErrText(spec.HErr)
 			found := false
 			for _, p := range x.monS.Packets {
 				if p.Kind == kError && len(p.Data) >= 8 && string(p.Data[8:]) == want {
@@ -799,6 +803,9 @@ func (x *e1) checkComplete(r *rpcRec) {
 		}
 		okSends := 0
 		for _, s := range dataSends(snd) {
+			if s.Op.Unenc {
+				continue // refused by the sender's encoder, by design
+			}
 			if !s.Done || s.Err != nil {
 				x.viol(x.complOracle(), fmt.Sprintf("send failed on a clean rpc dir=%s err-class=%s", dir, errClass(s.Err)), fmt.Sprintf("rpc%d %s err=%s", k, s.Op, errStr(s.Err)))
 				return
@@ -996,6 +1003,11 @@ func sizeClass(n int) string {
 // checkFaultContainment (C05 b, C12): after a transport fault or a close, both
 // endpoints must report the connection closed, and stream contexts must be done.
 func (x *e1) checkFaultContainment() {
+	for _, e := range []*Endpoint{x.cep, x.sep} {
+		if e != nil && e.Spinning {
+			x.viol("fault-hang", "the connection's reader keeps calling Read on a transport that has failed (more than 200 calls) instead of ending the connection", e.Name)
+		}
+	}
 	fault := x.ioFired()
 	closed := x.closeStep > 0 || x.transportClosedByHarness()
 	if !fault && !closed {
@@ -1057,7 +1069,7 @@ func (x *e1) checkFaultContainment() {
 // errConsumed reports whether the error packet the server wrote for rpc r has been
 // read completely by the client's connection reader.
 func (x *e1) errConsumed(r *rpcRec) bool {
-	want := buildErr(r.Spec.HErr).Error()
+	want := wantErrText(r.Spec.HErr)
 	for _, p := range x.monS.Packets {
 		if p.Kind == kError && len(p.Data) >= 8 && string(p.Data[8:]) == want {
 			return x.cep.Delivered >= p.EndOff
@@ -1115,4 +1127,72 @@ func (x *e1) serverMovedOn(r *rpcRec) bool {
 	}
 	w := x.whereRole("srv.serveone")
 	return w == "NewServerStream" || w == "acquireSemaphore"
+}
+
+// wantErrText: the text the client must see for a handler error (computed without
+// touching the shared sentinel).
+func wantErrText(e ErrSpec) string {
+	if e.Style >= 4 {
+		return sentinelText
+	}
+	return buildErr(e).Error()
+}
+
+// checkArrivedNotReceived (C01): at quiescence a receive must not stay blocked
+// while complete messages of its stream have already been read off the transport
+// by its own side's reader (every byte of their last frame was returned by Read).
+// Only judged on an undisturbed wire: no proxy rewriting bytes, no fault, no stall.
+func (x *e1) checkArrivedNotReceived(calls []blockedCall) {
+	if x.net.Mutate != nil || x.ioFired() || x.transportClosedByHarness() || x.closeStep > 0 || len(x.stalled) > 0 || x.pooled != nil || x.conn == nil {
+		return
+	}
+	for _, c := range calls {
+		if apiVerb(c.API) != "MsgRecv" && apiVerb(c.API) != "c.MsgRecv" && apiVerb(c.API) != "h.MsgRecv" {
+			continue
+		}
+		if whereClass(c.Where) != "cond:Get" {
+			continue
+		}
+		k := apiRPC(c.API)
+		var r *rpcRec
+		for _, o := range x.recs {
+			if o.Spec.Idx == k {
+				r = o
+			}
+		}
+		if r == nil || r.SID == 0 || r.Cancelled {
+			continue
+		}
+		// receiver side, sender's wire, receiver's endpoint
+		rcv, mon, ep := r.C, x.monS, x.cep
+		if strings.HasPrefix(c.API, "h.") {
+			rcv, mon, ep = r.H, x.monC, x.sep
+		}
+		if rcv == nil {
+			continue
+		}
+		arrived := 0
+		for _, p := range mon.Packets {
+			if p.Kind == kMessage && p.Stream == r.SID && p.EndOff <= ep.Delivered {
+				arrived++
+			}
+		}
+		got := 0
+		for _, rr := range rcv.Recvs {
+			got++
+			_ = rr
+		}
+		if arrived > got {
+			x.viol("delivery", "arrived-not-received: a receive is blocked for ever although a complete message of its stream has been read off the transport", fmt.Sprintf("rpc%d %s arrived=%d received=%d", k, c.API, arrived, got))
+		}
+	}
+}
+
+func handlerHalfCloses(spec *RPCSpec) bool {
+	for _, o := range spec.HOps {
+		if o.Kind == OpCloseSend {
+			return true
+		}
+	}
+	return false
 }
